@@ -87,7 +87,7 @@ def check(prog, run, sizes=range(0, 17), widths=range(1, 73), npairs=2000, floor
     run.explanation = ("the four functions of pyscsi/utils/converter.py are abstractly interpreted with the table entry "
                        "static and the value / buffer / prior contents symbolic (one symbol per bit); each law is then a "
                        "comparison of bit provenance, valid for all values at once; shapes enumerated: contiguous masks of "
-                       "width 1..72 at bit alignment 0..7, array sizes 0..16 (thorough 0..64), blob kinds b/w/dw x lengths 0..8")
+                       "width 1..72 at bit alignment 0..7 (and widths 1/3/8/10/17 at alignments 8..40), array sizes 0..16 (thorough 0..64), blob kinds b/w/dw x lengths 0..8")
     run.rule_text = ("one obligation per (law, shape); a shape is non-trivial when the law compares at least one symbolic "
                      "bit (all shapes except array size 0 and blob length 0)")
     run.trusted += ["python int shift/mask/xor/add and bytearray slice semantics as modelled in pyscsi_sa/values.py, ops.py"]
@@ -186,6 +186,12 @@ def check(prog, run, sizes=range(0, 17), widths=range(1, 73), npairs=2000, floor
     for w in widths:
         for a in range(8):
             shapes.append((w, a))
+    # masks whose lowest set bit lies beyond the first byte of their span (trailing zero bytes): legal table entries,
+    # e.g. a field in the high bytes of a wider window
+    for w in (1, 3, 8, 10, 17):
+        if w in widths:
+            for a in (8, 9, 12, 15, 16, 17, 23, 24, 31, 40):
+                shapes.append((w, a))
     nshape = 0
     for (w, a) in shapes:
         mask = ((1 << w) - 1) << a
@@ -303,6 +309,32 @@ def check(prog, run, sizes=range(0, 17), widths=range(1, 73), npairs=2000, floor
             else:
                 run.violation("L7-blob-same-range", c, "encode %r / decode %r, expected bytes [2, %d)" % (re_, rd_, 2 + length * mul),
                               file, enc.node.lineno, enc.qualname)
+    # L9: an entry means the same whether the table spells it as a list or as a tuple (the module's own CheckDict type allows
+    #     both for masks and for blobs; the tables of the library use lists for masks and, mostly, tuples for blobs)
+    if floors:
+        for (w, a, off) in ((1, 0, 0), (1, 7, 2), (8, 0, 1), (12, 4, 0), (24, 0, 3), (28, 4, 0), (64, 0, 2)):
+            mask = ((1 << w) - 1) << a
+            nbytes = (w + a + 7) // 8
+            c = "mask width %d align %d offset %d as tuple" % (w, a, off)
+            rl, rt = encode_entry(prog, [mask, off], w, off + nbytes + 2), encode_entry(prog, (mask, off), w, off + nbytes + 2)
+            dl, dt = decode_entry(prog, [mask, off]), decode_entry(prog, (mask, off))
+            if rl == rt and dl == dt and rl[0] == "bits" and dl[0] == "bits":
+                run.ok("L9-entry-notation", c)
+            else:
+                run.violation("L9-entry-notation", c, "the entry (%#x, %d) written as a tuple is %s, written as a list it is %s"
+                              % (mask, off, "encoded as %r / decoded as %r" % (rt[:2], dt[:2]), "encoded as %r / decoded as %r" % (rl[:2], dl[:2])),
+                              file, enc.node.lineno, enc.qualname)
+        for kind, mul in (("b", 1), ("w", 2), ("dw", 4)):
+            for length in (1, 3):
+                c = "blob %s offset 2 length %d as list" % (kind, length)
+                et, el = (kind, 2, length), [kind, 2, length]
+                pair_t = (encode_entry(prog, et, 0, 2 + length * mul + 3), decode_entry(prog, et))
+                pair_l = (encode_entry(prog, el, 0, 2 + length * mul + 3), decode_entry(prog, el))
+                if pair_t == pair_l:
+                    run.ok("L9-entry-notation", c)
+                else:
+                    run.violation("L9-entry-notation", c, "the entry written as a list gives %r, written as a tuple %r" % (pair_l, pair_t),
+                                  file, enc.node.lineno, enc.qualname)
     run.flush()
     run = real_run
     run.count("functions", 4)
